@@ -35,7 +35,7 @@ func tarTypeName(tf byte) string {
 }
 
 // loadAndCheck loads raw and compares everything the loader exposes with the model.
-func loadAndCheck(raw []byte, m DebModel, members []ArMember, viaFile bool) (*loadedDeb, error) {
+func loadAndCheck(raw []byte, m DebModel, members []ArMember, viaFile bool, indexFirst ...bool) (*loadedDeb, error) {
 	var d *deb.Deb
 	var err error
 	pathname := "some/dir/pkg_1_amd64.deb"
@@ -76,9 +76,23 @@ func loadAndCheck(raw []byte, m DebModel, members []ArMember, viaFile bool) (*lo
 		return nil, errf("ControlExt/DataExt = %q/%q, want %q/%q", d.ControlExt, d.DataExt, wantCtlExt, wantDataExt)
 	}
 	ld := &loadedDeb{ctlExt: d.ControlExt, dataExt: d.DataExt, members: map[string][]byte{}}
-	// payload first (it streams from the data member's reader)
 	if d.Data == nil {
 		return nil, errf("Deb.Data is nil")
+	}
+	if len(indexFirst) > 0 && indexFirst[0] {
+		// the index before the payload, through the members' own readers from where they stand
+		// (hash the members, compare with a Packages entry, then unpack): every indexed reader
+		// yields its whole member, and the payload stream is none the worse for it
+		for _, mem := range members {
+			e, ok := d.ArContent[mem.Name]
+			if !ok || e == nil {
+				return nil, errf("ArContent lacks member %q", mem.Name)
+			}
+			b, err := io.ReadAll(e.Data)
+			if err != nil || !bytes.Equal(b, mem.Data) {
+				return nil, errf("right after loading, reading ArContent[%q].Data yields %d bytes (err %v), the member has %d", mem.Name, len(b), err, len(mem.Data))
+			}
+		}
 	}
 	for {
 		h, err := d.Data.Next()
@@ -191,7 +205,7 @@ func checkDebCase(c DebCase, r *Recorder) error {
 		// the documented knob for the xz decoder: 0 = default dictionary limit, or a generous explicit one
 		deb.SetXZMaxDict(uint32((len(raw) % 2) * (1 << 26)))
 	}
-	first, err := loadAndCheck(raw, c.M, members, c.ViaFile)
+	first, err := loadAndCheck(raw, c.M, members, c.ViaFile, len(raw)%3 == 0)
 	if err != nil {
 		return err
 	}
@@ -217,7 +231,7 @@ func tarNames(fs []TarFile) []string {
 
 var specC14Load = Register(&Spec[DebCase]{
 	Prop: "C14", Name: "load",
-	Rule: "format-2.0 .deb packages built by an independent builder from a model: control paragraph (C10 DEBIAN/control generator, incl. X- fields), control.tar with optional './' entry, './control' or 'control' at any position among md5sums/conffiles/postinst (containing look-alike 'Package:' text)/control.bak/triggers, data.tar of directories, regular files (0..4 KiB, sizes around the 512-byte tar block) and symlinks, control and data codec each from {none, gz, xz, bz2, lzma, zst}, extra '_*' members after or between, optional GNU '/' name terminators; loaded with Load or LoadFile and twice more. Oracle: typed control fields, unknown fields, SourceName, ControlExt/DataExt, Path, ArContent keys and bytes, and the exact (name, type, content, link) sequence of the data tar equal the model; repeated loads agree. Non-trivial: control.tar has >= 2 files with control not first, or the two codecs differ; distinct by archive bytes.",
+	Rule: "format-2.0 .deb packages built by an independent builder from a model: control paragraph (C10 DEBIAN/control generator, incl. X- fields), control.tar with optional './' entry, './control' or 'control' at any position among md5sums/conffiles/postinst (containing look-alike 'Package:' text)/control.bak/triggers, data.tar of directories, regular files (0..4 KiB, sizes around the 512-byte tar block) and symlinks, control and data codec each from {none, gz, xz, bz2, lzma, zst}, extra '_*' members after or between, optional GNU '/' name terminators; loaded with Load or LoadFile and twice more. Oracle: typed control fields, unknown fields, SourceName, ControlExt/DataExt, Path, ArContent keys and bytes (in a third of the cases read through the indexed readers themselves, before the payload is touched), and the exact (name, type, content, link) sequence of the data tar equal the model; repeated loads agree. Non-trivial: control.tar has >= 2 files with control not first, or the two codecs differ; distinct by archive bytes.",
 	Check: checkDebCase,
 })
 
